@@ -36,6 +36,14 @@ EXTRA = {   # additional checks expected to notice a mutant
     'C18-init-overwrites-metadata': ['C05'],
     'C08-remove-committed-any-txn': ['C06'],
     'C05-setdefault-no-readback': ['C12'],
+    'C08-cull-deletes-more-than-collected': ['C09'],
+    'C03-set-culls-only-on-insert': ['C09'],
+    'C05-str-keys-builtin-hash': ['C13', 'C15'],
+    'C05-transact-except-exception': ['C06'],
+    'C13-mapping-set-del-lose-retry': ['C14'],
+    'C18-deque-ctor-trims-via-setter': ['C11'],
+    'C18-jsondisk-sorts-dict-keys': ['C02'],
+    'C11-push-caches-last-key': ['C10'],
     'C01-shared-pickle-buffer': ['C05'],
     'C02-peekitem-raw-key-undecoded': ['C12'],
     'C04-get-retry-by-rowid-no-expiry': ['C05', 'C12'],
